@@ -752,3 +752,56 @@ Proof.
   simpl. destruct (pc s); try discriminate. intros H. inversion H; subst; simpl. repeat split; auto.
   intros t Ht. apply in_or_app. right. apply in_map_iff. exists t. auto.
 Qed.
+
+(* ------------------------------------------------------------------ soundness of the executable well-formedness check *)
+Lemma index_of_lt x l : In x l -> index_of x l < length l.
+Proof.
+  induction l as [|y r IH]; simpl; [tauto|]. intros H. destruct (Nat.eqb_spec x y); [lia|].
+  destruct H; [congruence|]. specialize (IH H). lia.
+Qed.
+
+Lemma index_of_app_l x l1 l2 : In x l1 -> index_of x (l1 ++ l2) = index_of x l1.
+Proof.
+  induction l1 as [|y r IH]; simpl; [tauto|]. intros H. destruct (Nat.eqb_spec x y); auto.
+  destruct H; [congruence|]. rewrite IH; auto.
+Qed.
+
+Lemma index_of_app_r x l1 l2 : ~ In x l1 -> index_of x (l1 ++ l2) = length l1 + index_of x l2.
+Proof.
+  induction l1 as [|y r IH]; simpl; auto. intros H. destruct (Nat.eqb_spec x y); [subst; tauto|].
+  rewrite IH; auto.
+Qed.
+
+Lemma topo_ok_rank g : forall order before (pre : list nat),
+  (forall x, In x before <-> In x pre) ->
+  topo_ok_from g before order = true ->
+  forall x d, In x order -> In d (all_deps (get_task g x)) ->
+  index_of d (pre ++ order) < index_of x (pre ++ order).
+Proof.
+  induction order as [|y r IH]; simpl; intros before pre Hb H x d Hx Hd; [tauto|].
+  apply andb_prop in H as [H H3]. apply andb_prop in H as [H1 H2].
+  apply negb_true_iff in H2. apply mem_false in H2.
+  rewrite forallb_forall in H1.
+  destruct Hx as [<-|Hx].
+  - assert (Hdp : In d pre) by (apply Hb; apply mem_In; apply H1; auto).
+    rewrite (index_of_app_l d pre _ Hdp).
+    rewrite index_of_app_r by (intro Hc; apply H2; apply Hb; auto).
+    pose proof (index_of_lt d pre Hdp). lia.
+  - replace (pre ++ y :: r) with ((pre ++ [y]) ++ r) by (rewrite <- app_assoc; reflexivity).
+    apply (IH (y :: before) (pre ++ [y])); auto.
+    intros z. simpl. rewrite in_app_iff. simpl. rewrite Hb. tauto.
+Qed.
+
+Theorem wf_b_sound g order : wf_b g order = true -> wf g (fun i => index_of i order).
+Proof.
+  unfold wf_b. intros H. apply andb_prop in H as [H H3]. apply andb_prop in H as [H1 H2].
+  rewrite forallb_forall in H3.
+  assert (Hall : forall i, i < length g -> In i order).
+  { intros i Hi. apply mem_In. apply H3. apply in_seq. lia. }
+  constructor.
+  - intros i d Hi Hd. unfold closed_b in H1. rewrite forallb_forall in H1.
+    assert (Hin : In (get_task g i) g) by (unfold get_task; apply nth_In; auto).
+    specialize (H1 _ Hin). rewrite forallb_forall in H1. apply Nat.ltb_lt. apply H1. auto.
+  - intros i d Hi Hd.
+    apply (topo_ok_rank g order [] [] (fun x => conj (fun h => h) (fun h => h)) H2 i d (Hall i Hi) Hd).
+Qed.
